@@ -3,8 +3,10 @@
 patch=$1; tier=$2; shift 2
 cd /repo && git apply "$patch" || { echo "PATCH DOES NOT APPLY"; exit 3; }
 cd /verif
+saved=$(mktemp -d); cp evidence/*.json $saved/   # evidence must describe runs on the unchanged tree only
 for p in "$@"; do
   out=$(bin/check $p --tier $tier 2>&1); rc=$?
   echo "== $p exit=$rc"; echo "$out" | grep -E "VIOLATION|TOOL-ERROR" | head -5
 done
-git -C /repo checkout -- . 
+git -C /repo checkout -- .
+cp $saved/*.json evidence/; rm -rf $saved 
